@@ -38,6 +38,7 @@ def actions(level="std"):
     un("calc d=a+b", lambda c: {"a", "b"} <= c and "d" not in c, lambda ch, o, i: ("calc", ch, "d", ("add", A, B), o))
     un("calc e=-it(a)", lambda c: "a" in c and "e" not in c, lambda ch, o, i: ("calc", ch, "e", ("rneg", A, "it"), o))
     un("proj -b", lambda c: "b" in c, lambda ch, o, i: ("proj", ch, tuple(sorted(c for c in _c(ch) if c != "b")), o))
+    un("proj -d", lambda c: "d" in c, lambda ch, o, i: ("proj", ch, tuple(sorted(c for c in _c(ch) if c != "d")), o))
     un("proj a", lambda c: "a" in c and len(c) > 1, lambda ch, o, i: ("proj", ch, ("a",), o))
     un("proj all", lambda c: True, lambda ch, o, i: ("proj", ch, tuple(sorted(_c(ch))), o))
     un("sel a>k", lambda c: "a" in c, lambda ch, o, i: ("sel", ch, ("gt", A, ("lit", f"$k{i}")), o))
